@@ -196,14 +196,16 @@ pub fn c15(out: &mut dyn Write, tier: &str, _rng: &mut Rng, st: &mut Stats) {
                                 cnt += 1;
                                 if let SymbolicBDD::CountableConst(op, fs, k) = l.as_ref() {
                                     let cells: Vec<usize> = fs.iter().filter_map(|f| if let SymbolicBDD::Var(v) = f { rename(v.name.as_str()) } else { None }).collect();
-                                    if cells.len() != fs.len() || *k != 1 { ok = false; }
+                                    // `<= 1`, `= 1` and `< 2` say the same about two cells
+                                    let at_most_one = matches!((op, *k), (CountableOperator::AtMost, 1) | (CountableOperator::Exactly, 1) | (CountableOperator::LessThan, 2));
+                                    if cells.len() != fs.len() || !at_most_one { ok = false; }
                                     for c in &cells { maxv = maxv.max(*c); }
                                     // a row, a column or a diagonal: constant step between consecutive cells
                                     let steps: Vec<i64> = cells.windows(2).map(|w| w[1] as i64 - w[0] as i64).collect();
                                     let st0 = steps.first().copied().unwrap_or(1);
                                     let legal = [1i64, n as i64, n as i64 + 1, n as i64 - 1, -(n as i64 - 1), -(n as i64) + 1];
                                     if !steps.iter().all(|s| *s == st0) || !(legal.contains(&st0) || cells.len() <= 1) { ok = false; }
-                                    if !matches!(op, CountableOperator::AtMost | CountableOperator::Exactly) { ok = false; }
+                                    if !matches!(op, CountableOperator::AtMost | CountableOperator::Exactly | CountableOperator::LessThan) { ok = false; }
                                     // the line this list lies on, and whether it is the whole of it
                                     let ni = n as i64;
                                     let on = |r: i64, c: i64| r >= 0 && c >= 0 && r < ni && c < ni;
